@@ -16,6 +16,7 @@ def run(F, G, tier, seed):
                    "parameters and binders")
     effects.run_c13_seeds(chk, F, rid2)
     effects.run_reads(chk, F)
+    effects.run_restricted(chk, F)
     effects.run_visitors(chk, F, visitors=("UTAP::CollectDependenciesVisitor",))
     # checkType reaches array sizes and nested types
     rid3 = "R-CHECKTYPE"
